@@ -24,6 +24,8 @@ if build.REPO != '/repo':
 CORPUS = os.path.join(VERIF, 'corpus')
 KNOWN = os.path.join(VERIF, 'known_findings.txt')
 NCPU = min(16, os.cpu_count() or 1)
+# A time budget is only a budget: a failure that is a timeout is confirmed with this factor applied before it is believed.
+TIMEOUT_SCALE = 1
 
 SAN_ENV = {
     'ASAN_OPTIONS': 'abort_on_error=1:detect_leaks=0:allocator_may_return_null=1:handle_abort=0',
